@@ -1126,6 +1126,7 @@ fn mode_resize(work: &str, seed: u64, thorough: bool) {
 	let mut bytes_written = 0u64;
 	let mut failed_ops = 0u64;
 	let mut meta_fresh = true;
+	let mut resized_while_held = 0u64;
 	for i in 0..nb {
 		// sometimes a reader on the other thread holds a read transaction while batch() is called:
 		// when a resize is due, batch() has to wait for it (100 ms poll loop) and then continue
@@ -1138,6 +1139,9 @@ fn mode_resize(work: &str, seed: u64, thorough: bool) {
 			held_total += 1;
 		}
 		let pre = meta_info(&dir);
+		if std::env::var("KV_DEBUG_LOG").is_ok() {
+			eprintln!("batch {} hold={} pre={:?} fresh={}", i, hold, pre, meta_fresh);
+		}
 		let t0 = Instant::now();
 		let store = cx.store();
 		let mut b = match store.batch() {
@@ -1251,14 +1255,33 @@ fn mode_resize(work: &str, seed: u64, thorough: bool) {
 			// the meta page before batch() gives (map size, used pages), the one after the
 			// commit gives the map size the environment has now.  Only meaningful when the
 			// meta page was up to date (previous top-level batch committed).
-			if let (true, Some(pre), Some(post)) = (meta_fresh, pre, meta_info(&dir)) {
+			// (a commit of a batch that changed nothing writes no meta page: then nothing is
+			// observable and the meta page is stale for the next batch as well)
+			let post = meta_info(&dir);
+			let wrote_meta = match (pre, post) {
+				(Some(pre), Some(post)) => post.2 == pre.2 + 1,
+				_ => false,
+			};
+			if let (true, true, Some(pre), Some(post)) = (meta_fresh, wrote_meta, pre, post) {
+				// safety of the gate, observed from outside: the reader thread keeps its read
+				// transaction for 130 ms after acknowledging; if the map was enlarged inside this
+				// Store::batch() call, the call must have lasted until the reader let go
+				if hold && post.0 != pre.0 {
+					resized_while_held += 1;
+					if el < 120 {
+						cx.oracle_fail(format!(
+							"batch {}: the map was resized ({} -> {}) inside a Store::batch() call that took only {} ms while another thread held a read transaction for 130 ms",
+							i, pre.0, post.0, el
+						));
+					}
+				}
 				cx.st.op("needs-resize");
 				cx.line(
 					&format!("kv needs-resize {} {} {}", pre.0, pre.1 * 4096, 1_048_576),
 					&format!("{} {}", post.0 != pre.0, post.0),
 				);
 			}
-			meta_fresh = true;
+			meta_fresh = wrote_meta;
 		} else {
 			drop(b);
 			cx.sh.stack.pop();
@@ -1287,8 +1310,8 @@ fn mode_resize(work: &str, seed: u64, thorough: bool) {
 		cx.out.raw(&format!("#STAT resize WARNING only {} resizes observed", resizes));
 	}
 	cx.out.raw(&format!(
-		"#STAT resize batches {}; bytes written {}; map size {} -> {} in {} resizes {:?}; batch() calls with a reader holding a read txn {}; of these waited >= 90 ms for the reader {} (max {} ms); failed ops {}",
-		nb, bytes_written, first_map, last_map, resizes, sizes, held_total, waited, waited_max, failed_ops
+		"#STAT resize batches {}; bytes written {}; map size {} -> {} in {} resizes {:?}; batch() calls with a reader holding a read txn {}; of these waited >= 90 ms for the reader {} (max {} ms); resizes observed inside such a call {} (each checked to have waited for the reader); failed ops {}",
+		nb, bytes_written, first_map, last_map, resizes, sizes, held_total, waited, waited_max, resized_while_held, failed_ops
 	));
 	cx.print_stats("resize");
 	cx.finish();
